@@ -431,6 +431,10 @@ def run_kani_unit(uid, cfg, tier='quick'):
         rc, so, se, wall, to = limited(cmd, cfg.get('mem_gb', 12), cfg.get('timeout_s', 600 if tier == 'quick' else 1800),
                                        cwd=crate, env=env)
         out = so + '\n' + se
+        try:
+            open(os.path.join(crate, 'last_output_%d.txt' % len(cmds)), 'w').write(out)
+        except OSError:
+            pass
         if to:
             undec.append('kani timeout after %.0fs (%s)' % (wall, ','.join(h['name'] for h in hs)))
             continue
